@@ -125,6 +125,9 @@ type WorkerResult struct {
 	Samples  []json.RawMessage `json:"samples"`
 	Failures []Failure         `json:"failures"`
 	LogHash  string            `json:"log_hash"` // digest over all verdict hashes in order (determinism self-test)
+	// CaseDigests[i] fingerprints the verdict of case From+i; the determinism
+	// self-test compares them across processes, chunkings and GOMAXPROCS.
+	CaseDigests []string `json:"case_digests,omitempty"`
 }
 
 // Replay is the replay file format.
@@ -196,6 +199,7 @@ func Main(args []string) int {
 	deadline := fs.Duration("deadline", 0, "stop generating new cases after this long")
 	budget := fs.Duration("budget", 60*time.Second, "shrink time budget")
 	samples := fs.Int("samples", 2, "cases to write out as samples")
+	digestsFlag := fs.Bool("digests", false, "record a digest per case (determinism self-test)")
 	_ = fs.Parse(args[2:])
 	*out, *casef, *findings = abs(*out), abs(*casef), abs(*findings)
 	known := loadFindings(*findings, e.ID())
@@ -204,8 +208,20 @@ func Main(args []string) int {
 	}
 
 	switch args[1] {
+	case "worker", "replay", "shrink", "confirm":
+		// Process-global interpreter state that is initialised lazily (caches
+		// of built-in generic functions, function lookup tables, ...) would
+		// make a case behave differently as the first case of a fresh process
+		// and as the n-th case of a worker. Every process therefore first
+		// executes the same fixed warm-up cases; the determinism self-test
+		// checks that this is enough.
+		for i := 0; i < 24; i++ {
+			e.Execute(e.Generate(0xC0FFEE, i, "quick", nil))
+		}
+	}
+	switch args[1] {
 	case "worker":
-		return worker(e, *seed, *from, *to, *tier, *out, active(known), *maxFail, *deadline, *samples)
+		return worker(e, *seed, *from, *to, *tier, *out, active(known), *maxFail, *deadline, *samples, *digestsFlag)
 	case "replay":
 		return replay(e, *casef)
 	case "shrink":
@@ -248,7 +264,7 @@ func writeJSON(path string, v any) {
 }
 
 func worker(e Engine, seed uint64, from, to int, tier, out string, avoid []Finding, maxFail int,
-	deadline time.Duration, nsamples int) int {
+	deadline time.Duration, nsamples int, digests bool) int {
 	start := time.Now()
 	res := WorkerResult{Property: e.ID(), Seed: seed, From: from, To: to,
 		Faults: map[string]int{}, Probes: map[string]int{}, Extra: map[string]int{}}
@@ -269,9 +285,21 @@ func worker(e Engine, seed uint64, from, to int, tier, out string, avoid []Findi
 		addMap(res.Extra, v.Extra)
 		sim += v.SimTime
 		res.Steps += v.Steps
+		cd := uint64(14695981039346656037)
 		for _, h := range v.Hashes {
 			seen[h] = true
 			logh = (logh ^ h) * 1099511628211
+			cd = (cd ^ h) * 1099511628211
+		}
+		cd = (cd ^ uint64(v.Evals)) * 1099511628211
+		cd = (cd ^ uint64(v.Steps)) * 1099511628211
+		if v.V != nil {
+			for _, ch := range []byte(v.V.Class) {
+				cd = (cd ^ uint64(ch)) * 1099511628211
+			}
+		}
+		if digests {
+			res.CaseDigests = append(res.CaseDigests, fmt.Sprintf("%016x", cd))
 		}
 		if len(res.Samples) < nsamples {
 			res.Samples = append(res.Samples, c)
